@@ -10,7 +10,7 @@
 From Coq Require Import List NArith ZArith Bool.
 From Common Require Import Outcome.
 From Gen Require C01.
-From C01 Require Import Str Model Spec Model2 Proofs Proofs_order Proofs_merge.
+From C01 Require Import Str Model Spec Model2 Proofs Proofs_order Proofs_merge Proofs_tie.
 Import ListNotations.
 
 (* P1.  Writing a font value in field range (with a timestamp set) and reading
@@ -113,3 +113,18 @@ Proof.
   - unfold norm_version. apply Proofs_str.ver_to_milli_of_decimal. exact H.
 Qed.
 Print Assumptions version_print_parse.
+
+(* Translator tie: the weight/width name tables, the class constants and the
+   origin of the head clock the model spells out are the ones read from
+   os2/weight.go and head/time.go on this run. *)
+Theorem model_constants_match_source :
+  weight_names = Gen.C01.c01_os2_weight_names /\
+  width_names = Gen.C01.c01_os2_width_names /\
+  zero1904 = Gen.C01.c01_head_zeroTime /\
+  Gen.C01.c01_os2_WeightNormal = 400%N /\ Gen.C01.c01_os2_WidthNormal = 5%N /\
+  assoc_n Gen.C01.c01_os2_WeightBold weight_names = Some s_Bold.
+Proof.
+  split; [exact tie_weight_names|]. split; [exact tie_width_names|]. split; [exact tie_zero_time|].
+  exact tie_class_constants.
+Qed.
+Print Assumptions model_constants_match_source.
